@@ -231,7 +231,7 @@ func TestC13(t *testing.T) {
 			var forced uint16
 			var sawAlert = -2
 			cs := renegCase{tg: tg, kind: kind, seed: i, reneg: -1, requests: 1, can13: has13x(o)}
-			cs.script = renegScript{"sh_unadvertised_version", func(rg *rand.Rand, ch2 *wire.ClientHello) []renegRec {
+			cs.script = renegScript{name: "sh_unadvertised_version", f: func(rg *rand.Rand, ch2 *wire.ClientHello) []renegRec {
 				if ch2 == nil {
 					return nil
 				}
